@@ -43,7 +43,17 @@ EXTRA = [
     ("src/spox/_graph.py", "Graph.with_arguments"),
     ("src/spox/_public.py", "build"),
     ("src/spox/_internal_op.py", "intros"),
+    ("src/spox/_internal_op.py", "intro"),
+    ("src/spox/_internal_op.py", "unsafe_cast"),
+    ("src/spox/_internal_op.py", "unsafe_reshape"),
+    ("src/spox/_internal_op.py", "_Introduce.to_onnx"),
+    ("src/spox/_graph.py", "subgraph"),
+    ("src/spox/_graph.py", "Graph._with_constructor"),
 ]
+
+# modules the build path passes through whose module-level names are inventoried too (a module-level
+# cache / memo table added there is a new row)
+OTHER_MODULES = ["src/spox/_graph.py", "src/spox/_internal_op.py", "src/spox/_traverse.py"]
 
 # normalised-AST hashes on the pinned tree (regenerate: python3 -m translator.buildalg_facts --pin)
 PINNED: dict = {
@@ -62,10 +72,16 @@ PINNED: dict = {
     "src/spox/_build.py::Cached.value": "2e689ee62e51",
     "src/spox/_graph.py::Graph._get_build_result": "2ff2fe4e6d9b",
     "src/spox/_graph.py::Graph._inject_build_result": "caf7c95992bc",
+    "src/spox/_graph.py::Graph._with_constructor": "22283079aaf9",
     "src/spox/_graph.py::Graph.to_onnx": "2cd6aed3790a",
     "src/spox/_graph.py::Graph.to_onnx_model": "b7ca186b6eac",
     "src/spox/_graph.py::Graph.with_arguments": "67e07cd2b4a5",
+    "src/spox/_graph.py::subgraph": "66fc368e7b6e",
+    "src/spox/_internal_op.py::_Introduce.to_onnx": "3d8713ee82e0",
+    "src/spox/_internal_op.py::intro": "670575aea877",
     "src/spox/_internal_op.py::intros": "099e50b77bae",
+    "src/spox/_internal_op.py::unsafe_cast": "2e230593f9e2",
+    "src/spox/_internal_op.py::unsafe_reshape": "5f6598e2882c",
     "src/spox/_public.py::build": "641eeb05684c",
     "src/spox/_scope.py::Scope.update": "6934704e5e68",
     "src/spox/_traverse.py::iterative_dfs": "d097307d5691"
@@ -161,12 +177,32 @@ def _calls(fn: ast.FunctionDef):
     return sorted(names)
 
 
+def _module_names(mod: ast.Module) -> list:
+    names = []
+    for st in mod.body:
+        if isinstance(st, ast.Assign):
+            for t in st.targets:
+                for el in (t.elts if isinstance(t, (ast.Tuple, ast.List)) else [t]):
+                    names.append(dotted(el) or "?")
+        elif isinstance(st, (ast.AnnAssign, ast.AugAssign)):
+            names.append(dotted(st.target) or "?")
+        elif isinstance(st, (ast.FunctionDef, ast.AsyncFunctionDef, ast.ClassDef)):
+            names.append(st.name)
+        elif isinstance(st, (ast.Import, ast.ImportFrom, ast.Expr)):
+            continue
+        elif isinstance(st, ast.If) and dotted(st.test) == "TYPE_CHECKING":
+            continue
+        else:
+            names.append("<" + type(st).__name__ + ">")
+    return names
+
+
 def scan() -> dict:
     try:
         mod = ast.parse((REPO / SRC).read_text(), filename=SRC)
     except Exception as e:  # noqa: BLE001 - degrade to an opaque entry no modelled list contains
         return {"opaque": f"{type(e).__name__}: {e}"[:200], "methods": ["<unparsable>"], "moduleNames": ["<unparsable>"],
-                "classAttrs": [], "writes": [], "calls": [], "hashes": {}}
+                "classAttrs": [], "writes": [], "calls": [], "hashes": {}, "otherModuleNames": [("?", "<unparsable>")]}
     module_names = []
     for st in mod.body:
         if isinstance(st, ast.Assign):
@@ -202,7 +238,14 @@ def scan() -> dict:
             hashes[f"{rel}::{qual}"] = _hash(fn) if fn is not None else "<missing>"
         except Exception:  # noqa: BLE001
             hashes[f"{rel}::{qual}"] = "<unparsable>"
-    return {"methods": [q for q, _ in funs], "moduleNames": module_names, "classAttrs": class_attrs,
+    other = []
+    for rel in OTHER_MODULES:
+        try:
+            for nm in _module_names(ast.parse((REPO / rel).read_text(), filename=rel)):
+                other.append((rel.rsplit("/", 1)[-1], nm))
+        except Exception:  # noqa: BLE001
+            other.append((rel.rsplit("/", 1)[-1], "<unparsable>"))
+    return {"otherModuleNames": other, "methods": [q for q, _ in funs], "moduleNames": module_names, "classAttrs": class_attrs,
             "writes": writes, "calls": calls, "hashes": hashes}
 
 
@@ -225,6 +268,9 @@ def generate() -> dict:
         + rows([f"({lean_str(a)}, {lean_str(b)}, {lean_str(c)})" for a, b, c in info["writes"]]) + "\n\n"
         + "def calls : List (String × List String) :=\n  "
         + rows([f"({lean_str(q)}, {lean_list([lean_str(c) for c in cs])})" for q, cs in info["calls"]]) + "\n\n"
+        + "/-- names bound at module level in the other modules the build path passes through -/\n"
+        + "def otherModuleNames : List (String × String) :=\n  "
+        + rows([f"({lean_str(a)}, {lean_str(b)})" for a, b in info["otherModuleNames"]]) + "\n\n"
         + "end Generated.BuildAlgFacts\n"
     )
     write_if_changed(GEN / "BuildAlgFacts.lean", text)
